@@ -1,6 +1,7 @@
 // translate regenerates Coq model fragments from /repo's current source.
 //
 //	translate grpcstatus <repo> <out.v>   ConvertGrpcStatus switch + docs table
+//	translate grpcdial <repo> <out.v>     dial options / InvokeRpc call options / outgoing metadata of the gRPC guns
 //	translate consts <repo> <out.v>       named constants used by the properties
 package main
 
@@ -18,6 +19,8 @@ func main() {
 	switch os.Args[1] {
 	case "grpcstatus":
 		err = genGrpcStatus(os.Args[2], os.Args[3])
+	case "grpcdial":
+		err = genGrpcDial(os.Args[2], os.Args[3])
 	case "consts":
 		err = genConsts(os.Args[2], os.Args[3])
 	case "sched":
@@ -28,8 +31,12 @@ func main() {
 		err = genSchema(os.Args[2], os.Args[3])
 	case "tags":
 		err = genTags(os.Args[2], os.Args[3])
-	case "gofn", "gofn-math", "gofn-mp", "gofn-httpgun", "gofn-istep", "gofn-waiter":
+	case "runasync":
+		err = genRunAsync(os.Args[2], os.Args[3])
+	case "gofn", "gofn-math", "gofn-mp", "gofn-httpgun", "gofn-istep", "gofn-waiter", "gofn-instance":
 		err = genGoFn(os.Args[1], os.Args[2], os.Args[3])
+	case "pooldeps":
+		err = genPoolDeps(os.Args[2], os.Args[3])
 	default:
 		err = fmt.Errorf("unknown translator %q", os.Args[1])
 	}
